@@ -129,6 +129,52 @@ def check(case: t.Any, ctx: Ctx) -> None:
         pass
 
 
+def atheris_cases(shard: int, nshards: int) -> t.Iterator[t.Any]:
+    yield ['atheris-campaign', shard]
+
+
+def check_atheris(case: t.Any, ctx: Ctx) -> None:
+    """One coverage-guided campaign (pv/fuzz.py) per worker; its collected failures are reported with their own replayable cases."""
+    import json
+    import os
+    import subprocess
+    import sys
+    import tempfile
+    from .. import codec
+    from ..core import ROOT
+    shard = case[1]
+    out = tempfile.mktemp(prefix=f'pv-fuzz-{ID}-{shard}-', suffix='.jsonl', dir='/tmp')
+    seed = int(os.environ.get('VERIF_SEED', '1') or 1) * 100 + shard + 1
+    r = subprocess.run([sys.executable, '-m', 'pv.fuzz', ID, '--out', out, '--runs', '400000', '--seed', str(seed), '--budget', str(ATHERIS_BUDGET)],
+                       cwd=ROOT, env=dict(os.environ), capture_output=True, text=True, timeout=ATHERIS_BUDGET + 120)
+    stats: t.Dict[str, t.Any] = {}
+    try:
+        for line in open(out, encoding='utf-8'):
+            rec = json.loads(line)
+            if 'stats' in rec:
+                stats = rec['stats']
+            else:
+                (oracle, _, klass) = rec['key'].partition('/')
+                ctx.fail(oracle, klass, rec['detail'] + '  [found by the atheris campaign]', case=codec.dec(rec['case']), suite='twopass')
+    except FileNotFoundError:
+        pass
+    finally:
+        import shutil
+        shutil.rmtree(out + '.corpus', ignore_errors=True)
+        if os.path.exists(out):
+            os.remove(out)
+    if stats.get('error') or not stats:
+        ctx.label('atheris:unavailable')
+        ctx.exclude(f"atheris campaign did not run: {stats.get('error') or r.stderr[-200:]}")
+        return
+    ctx.label('atheris:campaign')
+    ctx.evaluated(int(stats.get('valid_cases', 0)))
+    ctx.nontrivial(stats.get('nontrivial', 0) > 0)
+
+
+ATHERIS_BUDGET = 240.0
+
+
 def suites(tier: str) -> t.List[Suite]:
     big = tier == 'thorough'
     leaves = 8 if big else 4
@@ -136,4 +182,5 @@ def suites(tier: str) -> t.List[Suite]:
         Suite('hash-hostile', check, strategy=lambda: gen.conv_cases(gen.hash_hostile_specs()), examples=2000 if big else 150, budget_s=120 if big else 20, render=gen.render_case),
         Suite('twopass', check, strategy=lambda: gen.conv_cases(gen.all_type_specs(leaves)), examples=8000 if big else 600,
               budget_s=480 if big else 40, render=gen.render_case),
+        *([Suite('atheris', check_atheris, cases=atheris_cases, budget_s=ATHERIS_BUDGET + 200)] if big else []),
     ]
